@@ -785,6 +785,66 @@ func eventText(r *rep.Report) {
 	}
 }
 
+// reloadedInstance: built-in cron, an every-second rule, the location loaded a second time in the same
+// process (as the location cache does after its TTL), then the rule replaced through the new instance
+// with the SAME schedule and another action.  From then on ticks run the new action.
+func reloadedInstance(r *rep.Report) {
+	for _, kind := range drv.Kinds {
+		ctx := drv.Ctx()
+		cr, _ := cron.NewCron(nil, time.Second, "verif-reload", 100000)
+		go cr.Start(ctx)
+		ic := &cron.InternalCron{Cron: cr}
+		st := drv.MustMem()
+		open := func() (*core.Location, error) {
+			s, err := drv.NewState(drv.Ctx(), kind, "Z", st)
+			if err != nil {
+				return nil, err
+			}
+			cron.AddHooks(drv.Ctx(), ic, s)
+			return core.NewLocation(drv.Ctx(), "Z", s, nil)
+		}
+		rule := func(v string) core.Map {
+			return core.Map{"schedule": "* * * * * * *", "action": map[string]interface{}{"code": "Env.AddFact('', {ran:'" + v + "'})"}}
+		}
+		l1, err := open()
+		if err != nil {
+			r.Violate("", "cannot build location: "+err.Error(), nil)
+			continue
+		}
+		l1.AddRule(drv.Ctx(), "tick", rule("v1"))
+		time.Sleep(1200 * time.Millisecond)
+		l2, err := open() // the second instance registers the stored rule again
+		if err != nil {
+			r.Violate("", "cannot load the location a second time: "+err.Error(), nil)
+			continue
+		}
+		_, aerr := l2.AddRule(drv.Ctx(), "tick", rule("v2"))
+		canary := make(chan bool, 1)
+		time.AfterFunc(2500*time.Millisecond, func() { canary <- true })
+		time.Sleep(2600 * time.Millisecond)
+		late := len(canary) == 0
+		cr.Kill(ctx)
+		count := func(l *core.Location, v string) int {
+			srs, err := l.SearchFacts(drv.Ctx(), core.Map{"ran": v}, false)
+			if err != nil || srs == nil {
+				return -1
+			}
+			return len(srs.Found)
+		}
+		l3, _ := drv.NewLoc("Z", kind, st)
+		v2 := count(l3, "v2")
+		r.Case(true, "reloaded-instance"+kind)
+		r.Count("reloaded_instance_cases", 1)
+		if late {
+			r.Inconclusive("canary late")
+			continue
+		}
+		if aerr != nil || v2 < 1 {
+			r.Violate("", "after the location was loaded again and its every-second rule replaced (same schedule, new action), 2.6 s of ticks never ran the new action", rep.J{"state": kind, "replace_error": drv.ErrStr(aerr), "runs_of_the_new_action": v2, "runs_of_the_old_action_in_storage": count(l3, "v1")})
+		}
+	}
+}
+
 // croltGlue: the System with the glue for the persistent cron service (cron.CroltSimple) and a
 // stand-in for that service which keeps the job table its /add and /rem requests describe
 // (account = location, id = rule id; same parameters as crolt's handlers).  After every step the
@@ -913,6 +973,7 @@ func main() {
 	switch e.Stage {
 	case "timed":
 		croltGlue(r)
+		reloadedInstance(r)
 		eventText(r)
 		noOccurrence(r, e)
 		restart(r, e)
